@@ -16,8 +16,9 @@
 (* & ... &) the characters ! & / are ordinary.                             *)
 (* Outside the well-formed texts (ok = FALSE): a statement line that holds  *)
 (* nothing but continuation markers and comments; a # that is not the first *)
-(* non-blank character of its line; quotes inside a directive line (the C   *)
-(* cleaner's business, see CScan / MC_CLex).                                *)
+(* non-blank character of its line; quotes inside a directive that spans    *)
+(* several lines (the C cleaner's business, see CScan / MC_CLex) - a quote  *)
+(* character on a ONE-line directive (#else ! isn't) is ordinary.           *)
 (*                                                                         *)
 (* The text is a sequence of lines, each a sequence of one-character       *)
 (* strings (no newline characters).  ScanF returns                          *)
@@ -87,7 +88,7 @@ ScanLines(lines, k, s) ==
   ELSE IF ln[f] = "#" THEN        \* (the preprocessor runs first: also between the pieces of a continued literal)
        \* a preprocessor directive may sit between the lines of a continued statement
        ScanLines(lines, k + 1, TLCEval([s EXCEPT !.dcont = endsBs, !.counted = s.counted \cup {k}, !.curdir = {k},
-                    !.ok = s.ok /\ ~HasAny(ln, f + 1, {"'", "\"", "#"}),
+                    !.ok = s.ok /\ ~HasAny(ln, f + 1, {"#"}) /\ (endsBs => ~HasAny(ln, f + 1, {"'", "\""})),
                     !.dirs = IF endsBs THEN s.dirs ELSE Append(s.dirs, {k})]))
   ELSE IF (s.q = "" \/ s.cont) /\ IsSentinel(ln, f) THEN
        \* a directive sentinel inside a continued statement is a directive to one compiler and a
